@@ -293,11 +293,13 @@ class World(object):
              'threading_type': rpc.OpenMP if cfg['omp'] else '',
              'pre_exec_sync': bool(cfg['sync']),
              'name'         : case.get('name', '')}
-        if cfg['out'] == 'rel':
-            d['stdout'], d['stderr'] = 'my_stdout.txt', 'my_stderr.txt'
-        elif cfg['out'] == 'abs':
-            d['stdout'] = '%s/%s.o' % (self.absd, uid)
-            d['stderr'] = '%s/%s.e' % (self.absd, uid)
+        names = {'out_rel': 'my_stdout.txt', 'out_abs': '%s/%s.o' % (self.absd, uid),
+                 'err_rel': 'logs.err.txt',  'err_abs': '%s/%s.e' % (self.absd, uid)}
+        for key, kind, pfx in (('stdout', cfg['out'], 'out'), ('stderr', cfg['err'], 'err')):
+            if kind == 'rel':
+                d[key] = names[pfx + '_rel']
+            elif kind == 'abs':
+                d[key] = names[pfx + '_abs']
         td = rp.TaskDescription(d)
         td.verify()
         tdd = td.as_dict()
@@ -311,11 +313,8 @@ class World(object):
         if case.get('name'):
             task['name'] = case['name']
 
-        out = d.get('stdout') or '%s.out' % uid
-        err = d.get('stderr') or '%s.err' % uid
         want = {'sbox'  : sbox,
-                'stdout': out if out[0] == '/' else '%s/%s' % (sbox, out),
-                'stderr': err if err[0] == '/' else '%s/%s' % (sbox, err),
+                'names' : names,
                 'rp'    : {'RP_TASK_ID'            : uid,
                            'RP_TASK_NAME'          : case.get('name') or uid,
                            'RP_PILOT_ID'           : PID,
@@ -338,6 +337,7 @@ class World(object):
     def run(self, case, keep=False, timeout=60):
         '''generate the scripts with the real code, run them, return the trace'''
         cfg  = case['cfg']
+        cfg.setdefault('err', cfg['out'])             # replay objects of the first version
         uid  = case['uid']
         n    = cfg['ranks']
         task, want = self.task_for(case)
@@ -380,15 +380,17 @@ class World(object):
                 if hung:
                     lcode = -2
 
+        want['task_out'] = os.path.normpath(task['stdout_file']) if task.get('stdout_file') else 'unset'
+        want['task_err'] = os.path.normpath(task['stderr_file']) if task.get('stderr_file') else 'unset'
         trace = self._observe(case, want, obs, lcode, gen_error)
         if keep:
             trace['_dirs'] = {'sbox': sbox, 'obs': obs}
         else:
             shutil.rmtree(obs, ignore_errors=True)
             shutil.rmtree(sbox, ignore_errors=True)
-            for k in ('stdout', 'stderr'):
-                if want[k].startswith(self.absd) and os.path.exists(want[k]):
-                    os.unlink(want[k])
+            for f in os.listdir(self.absd):
+                if f.startswith(uid + '.'):
+                    os.unlink('%s/%s' % (self.absd, f))
         return trace
 
     # --------------------------------------------------------------------------
@@ -475,14 +477,26 @@ class World(object):
                 if c is not None and c.strip().lstrip('-').isdigit():
                     events.append({'ev': 'RankExit', 'r': r, 'code': int(c)})
 
-        out = read(want['stdout'], 'r') or ''
-        err = read(want['stderr'], 'r') or ''
+        # every file that holds what a rank wrote to stdout / stderr: the whole task
+        # sandbox (recursively) and the directory of the absolute names
+        found = {'OUT': [[] for _ in range(n)], 'ERR': [[] for _ in range(n)]}
+        files = ['%s/%s' % (self.absd, f) for f in sorted(os.listdir(self.absd))
+                 if f.startswith(case['uid'] + '.')]
+        for top, _, fs in sorted(os.walk(want['sbox'])):
+            files += ['%s/%s' % (top, f) for f in sorted(fs)]
+        for f in files:
+            lines = (read(f, 'rb') or b'').split(b'\n')
+            for tag in ('OUT', 'ERR'):
+                for r in range(n):
+                    if ('%s:%d' % (tag, r)).encode() in lines:
+                        found[tag][r].append(os.path.normpath(f))
         events.append({'ev': 'LaunchExit', 'code': lcode,
-                       'out_has': ['OUT:%d' % r in out.splitlines() for r in range(n)],
-                       'err_has': ['ERR:%d' % r in err.splitlines() for r in range(n)]})
+                       'out_at': found['OUT'], 'err_at': found['ERR']})
 
         return {'uid': case['uid'], 'cfg': cfg, 'F': case['F'], 'xrc': list(case['xrc']),
-                'gen_error': gen_error, 'events': events}
+                'gen_error': gen_error, 'events': events,
+                'sbox': os.path.normpath(want['sbox']), 'names': want['names'],
+                'task_out': want['task_out'], 'task_err': want['task_err']}
 
 
 # ------------------------------------------------------------------------------
